@@ -51,7 +51,8 @@ impl UnitSet {
             .map(|(unit, p)| (unit.dimension(), p))
             .filter(|(dim, _p)| *dim != Dimension::None)
             .fold(BTreeMap::new(), |mut map, (dim, power)| {
-                *map.entry(dim).or_insert(0) += *power;
+                let sum = map.entry(dim).or_insert(0);
+                *sum = add_power(*sum, *power);
                 map
             })
             .into_iter()
@@ -67,7 +68,8 @@ impl UnitSet {
             .map(|(unit, p)| (CssDimension::from(unit.dimension()), p))
             .filter(|(dim, _p)| *dim != CssDimension::None)
             .fold(BTreeMap::new(), |mut map, (dim, power)| {
-                *map.entry(dim).or_insert(0) += *power;
+                let sum = map.entry(dim).or_insert(0);
+                *sum = add_power(*sum, *power);
                 map
             })
             .into_iter()
@@ -151,16 +153,21 @@ impl Div for &UnitSet {
         'rhs: for (ru, rp) in &rhs.units {
             for (lu, lp) in &mut result.units {
                 if lu == ru {
-                    *lp -= rp;
+                    *lp = add_power(*lp, rp.saturating_neg());
                     continue 'rhs;
                 }
             }
-            result.units.push((ru.clone(), -rp));
+            result.units.push((ru.clone(), rp.saturating_neg()));
         }
         result.units.retain(|(_u, p)| *p != 0);
         result
     }
 }
+/// Add unit powers, saturating to a range where the result can be negated.
+fn add_power(a: i8, b: i8) -> i8 {
+    a.saturating_add(b).max(-i8::MAX)
+}
+
 impl Mul for &UnitSet {
     type Output = UnitSet;
     fn mul(self, rhs: Self) -> Self::Output {
@@ -168,7 +175,7 @@ impl Mul for &UnitSet {
         'rhs: for (ru, rp) in &rhs.units {
             for (lu, lp) in &mut result.units {
                 if lu == ru {
-                    *lp += rp;
+                    *lp = add_power(*lp, *rp);
                     continue 'rhs;
                 }
             }
